@@ -1,7 +1,10 @@
 """C02 - the rejection step keeps prior sample i exactly when exp(ll_i - max ll) > u_i, rows unaltered,
 evaluation order, truncation to the first accepted / first evaluated rows."""
+from jvc.lib import LIB as _L
+from . import filemodel
 from . import rejection as R
 
 PROPERTY = "C02"
-CONTRACTS = R.select([R.marginal_inmem, R.full_inmem] + R.rejection_inmem, {"C02"})
-CALLEES = dict(R.INMEM_CALLEES)
+CONTRACTS = R.select([R.marginal_inmem, R.full_inmem] + R.rejection_inmem + R.rejection_file, {"C02"})
+CALLEES = {**R.INMEM_CALLEES, **R.FILE_CALLEES}
+LIB = filemodel.install_repo_models({})
